@@ -11,7 +11,10 @@
 import json, os, re, shutil, subprocess, sys, time
 
 VERIF = os.path.dirname(os.path.dirname(os.path.abspath(__file__)))
-ENV = dict(os.environ, GOFLAGS="-mod=mod", GOPROXY="off", GOSUMDB="off", GOTOOLCHAIN="local")
+# SEED_REPO: the tree the change is applied to for the check runs (default /repo itself; a scratch worktree of /repo
+# lets a batch run beside other work, the checks are pointed at it through VERIF_REPO)
+REPO = os.path.abspath(os.environ.get("SEED_REPO", "/repo"))
+ENV = dict(os.environ, GOFLAGS="-mod=mod", GOPROXY="off", GOSUMDB="off", GOTOOLCHAIN="local", VERIF_REPO=REPO)
 
 
 def sh(cmd, cwd=None, timeout=1200):
@@ -29,7 +32,7 @@ def main():
         n = sys.argv[sys.argv.index("--as") + 1]
     patch = os.path.join(seed, "patch.diff")
     demo = os.path.join(seed, "demo_test.go")
-    meta = {"property": prop, "seed": n, "source": "fresh sub-agent given only the property text and a scratch worktree", "round": 2 if "--as" in sys.argv else 1, "at": time.strftime("%Y-%m-%dT%H:%M:%SZ", time.gmtime())}
+    meta = {"property": prop, "seed": n, "source": "fresh sub-agent given only the property text and a scratch worktree", "round": int(sys.argv[sys.argv.index("--round") + 1]) if "--round" in sys.argv else (2 if "--as" in sys.argv else 1), "at": time.strftime("%Y-%m-%dT%H:%M:%SZ", time.gmtime())}
     wt = "/tmp/seedwt-%s-%s" % (prop, n)
     sh("git -C /repo worktree remove --force %s" % wt)
     rc, out = sh("git -C /repo worktree add --detach %s HEAD" % wt)
@@ -70,9 +73,9 @@ def main():
         print(meta.get("demo_output_with_change", "")[-600:])
         sys.exit(1)
     # run the checks against the change
-    rc, st = sh("git -C /repo status --short")
-    assert st.strip() == "", "/repo is not clean: " + st
-    rc, out = sh("git -C /repo apply %s" % patch)
+    rc, st = sh("git -C %s status --short" % REPO)
+    assert st.strip().replace("?? _seed/", "") == "", REPO + " is not clean: " + st
+    rc, out = sh("git -C %s apply %s" % (REPO, patch))
     assert rc == 0, out
     results = {}
     try:
@@ -83,8 +86,8 @@ def main():
             results[c] = {"exit": rc, "seconds": round(time.time() - t0), "violations": [l.strip()[:300] for l in lines][:12]}
             print(c, "exit", rc, "\n".join(lines[:8]))
     finally:
-        sh("git -C /repo checkout -- .")
-        sh("git -C /repo clean -fdq -- fluent")
+        sh("git -C %s checkout -- ." % REPO)
+        sh("git -C %s clean -fdq -- fluent" % REPO)
     meta["checks_run_against_it"] = results
     meta["detected_by"] = sorted(c for c in results if results[c]["exit"] != 0)
     dest = os.path.join(VERIF, "seeded", "%s-%s" % (prop, n))
